@@ -368,6 +368,8 @@ def run(ctx):
     from contracts import c_checkers as ck
     ctx.verify(ck.engine(), ck.VERIFY)
     ck.pass_list_obligations(ctx)
+    from contracts import c_portrefs
+    ctx.verify(c_portrefs.engine(), [c_portrefs.VERIFY[1]])
     check_fault.at_construction = 0
     ctx.run_bounded("fault-enumeration", fault_cases(), check_fault,
                     rule="13 fault classes of the statement planted on scalar/bus/slice/concat/port-reference/bundle/"
